@@ -146,10 +146,13 @@ fn script_for(term: &mut Term, frame: &[u8], plan: &Value) -> (Vec<Vec<u8>>, Str
     let mut frames: Vec<Vec<u8>> = vec![];
     // intermediate statuses in front of the answer - not for the pending query, whose regular answer is a single 06 1E packet
     let is_query = cf == (0x06, 0x23) && frame.windows(3).any(|w| w == [0x87, 0xff, 0xff]);
-    for _ in 0..plan.get("inter").and_then(|c| c.as_u64()).filter(|_| !is_query).unwrap_or(0) {
+    // one-shot exchanges (registration, system information, set terminal id) have no intermediate packets in their reply set; card
+    // reading has no print lines
+    let one_shot = matches!(cf, (0x06, 0x00) | (0x0f, 0xa1) | (0x06, 0x1b));
+    for _ in 0..plan.get("inter").and_then(|c| c.as_u64()).filter(|_| !is_query && !one_shot).unwrap_or(0) {
         frames.push(intermediate());
     }
-    for _ in 0..plan.get("lines").and_then(|c| c.as_u64()).unwrap_or(0) {
+    for _ in 0..plan.get("lines").and_then(|c| c.as_u64()).filter(|_| !is_query && !one_shot && cf != (0x06, 0xc0)).unwrap_or(0) {
         frames.push(p::PrintLine { attribute: 0, text: "receipt line".into() }.zvt_serialize());
     }
     let status_from = |s: &Value, receipt: Option<usize>| -> p::StatusInformation {
